@@ -166,6 +166,13 @@ def strategy(draw):
             opts["head"] = draw(st.sampled_from([b, b + 1]))
         else:
             opts["tail"] = draw(st.sampled_from([n - b - 1, n - b]))
+    if n >= 2 and draw(st.integers(0, 5)) == 0:
+        # the requested counts add up to (at least) the number of rows while the selections overlap: the union of the
+        # selected rows is still a strict subset
+        h = draw(st.integers(1, n - 1))
+        k = draw(st.integers(n - h, min(n, n - h + 1)))
+        opts = {"head": None, "tail": None, "sample": k, "random_state": draw(st.integers(0, 50))}
+        opts["head" if draw(st.booleans()) else "tail"] = h
     if draw(st.integers(0, 3)) == 0:
         opts["head_all_relation"] = True
     spec = base["spec"]
